@@ -53,7 +53,8 @@ Sink0 == [acc |-> <<>>, calls |-> 0, failAt |-> 0, keep |-> 0, failed |-> FALSE]
 SinkWrite(sink, b) ==
   LET c == sink.calls + 1 IN
     IF sink.failAt = c
-    THEN [sink EXCEPT !.calls = c, !.acc = @ \o Take(b, sink.keep), !.failed = TRUE]
+    \* (keep < 0: all but that many bytes of the failing call are accepted)
+    THEN [sink EXCEPT !.calls = c, !.acc = @ \o Take(b, IF sink.keep < 0 THEN (IF Len(b) + sink.keep < 0 THEN 0 ELSE Len(b) + sink.keep) ELSE sink.keep), !.failed = TRUE]
     ELSE [sink EXCEPT !.calls = c, !.acc = @ \o b]
 
 \* --------------------------------------------------------- trim writers
